@@ -63,6 +63,9 @@ func runRule(c *Ctx, id string) (res *ruleResult) {
 }
 
 func main() {
+	// the loaded program is a large, long-lived heap; the abstract machine allocates small short-lived
+	// values: collect less often
+	debug.SetGCPercent(400)
 	if len(os.Args) < 2 {
 		usage()
 	}
